@@ -1,6 +1,7 @@
 package rules
 
 import (
+	"go/token"
 	"regexp"
 	"sort"
 	"strconv"
@@ -14,7 +15,7 @@ import (
 func init() {
 	Registry["C01"] = checkC01
 	Descriptions["C01"] = "Engine E1/E5 (decode side): newMessage and the *Parameters methods it calls are interpreted symbolically along every success path (branches from which only one side can still succeed are forced, genuine forks enumerated, range loops as one symbolic element); the origin of every exported message field is an expression over the BER tree and is compared with a table transcribed from RFC 4511 (position, accessor, list construction over the whole child list, order). " +
-		"C01-kindmap (protocolOp tag -> kind -> message type -> route operation compose to the RFC bijection; unknown tags are an error), C01-version (a Bind succeeds only if version == 3), C01-field / C01-list (field origins), C01-assert (every class/type/tag assertion on a table node carries the RFC's values), C01-reach (every well-formed shape has a success path). " +
+		"C01-kindmap (protocolOp tag -> kind -> message type -> route operation compose to the RFC bijection; unknown tags are an error), C01-version (a Bind succeeds only if version == 3), C01-field / C01-list (field origins), C01-assert (every class/type/tag assertion on a table node carries the RFC's values), C01-reach (every well-formed shape has a success path), C01-readonly-data (between ReadPacket and the handler only non-consuming bytes.Buffer methods touch a received packet's Data). " +
 		"Values are never inspected. Trusted: ldap.DecompileFilter, ber.ReadPacket."
 }
 
@@ -418,12 +419,114 @@ func checkC01(c *Ctx) {
 			}
 		}
 	}
+	// ---------------------------------------------------------------- read-only packet data
+	// the decoder's string accessors read packet.Data (a *bytes.Buffer): between reading the frame and handing the
+	// request to the handler nothing may consume, reset or append to a received packet's Data
+	if rr := c.fn(G, "(*conn).readRequest"); rr != nil {
+		readOnly := map[string]bool{"String": true, "Bytes": true, "Len": true, "Cap": true, "Available": true}
+		nData := 0
+		var fns []*ssa.Function
+		for f := range syncReach(rr) {
+			fns = append(fns, an.WithClosures(f)...)
+		}
+		sort.Slice(fns, func(i, j int) bool { return an.FuncKey(fns[i]) < an.FuncKey(fns[j]) })
+		seenFn := map[*ssa.Function]bool{}
+		for _, f := range fns {
+			if seenFn[f] {
+				continue
+			}
+			seenFn[f] = true
+			an.Instrs(f, func(in ssa.Instruction) {
+				ld, ok := in.(*ssa.UnOp)
+				if !ok || ld.Op != token.MUL {
+					return
+				}
+				fa, ok := ld.X.(*ssa.FieldAddr)
+				if !ok || an.FieldAddrName(fa) != "Data" || !an.TypeIs(fa.X.Type(), an.PkgBer, "Packet") || ld.Referrers() == nil {
+					return
+				}
+				for _, ref := range *ld.Referrers() {
+					if _, isDbg := ref.(*ssa.DebugRef); isDbg {
+						continue
+					}
+					nData++
+					key := fname(f) + ": use of a received packet's Data"
+					if ci, ok := ref.(ssa.CallInstruction); ok {
+						if callee := ci.Common().StaticCallee(); callee != nil && an.FuncPkgPath(callee) == "bytes" && len(ci.Common().Args) > 0 && ci.Common().Args[0] == ssa.Value(ld) {
+							if readOnly[callee.Name()] {
+								R.OK("C01-readonly-data", key, c.pos(ref), "bytes.Buffer."+callee.Name()+" does not consume the buffer")
+							} else if callee.Name() == "Truncate" && isReparseIdiom(ci, fa) {
+								R.OK("C01-readonly-data", key+" (re-parse idiom)", c.pos(ref), "Data.Truncate(0) followed in the same block by AppendChild(ber.DecodePacket(Data.Bytes())) of the same packet: the content is parsed and written back")
+							} else {
+								R.Fail("C01-readonly-data", key, c.pos(ref), "bytes.Buffer."+callee.Name()+" on the Data of a packet on the decode path changes what the decoder's later Data.String()/Bytes() return: the handler no longer receives what the client encoded")
+							}
+							continue
+						}
+					}
+					R.Fail("C01-readonly-data", key, c.pos(ref), "the packet's Data buffer is handed to code that may consume it ("+ref.String()+") on the decode path")
+				}
+			})
+		}
+		R.Extra["C01-readonly-data/uses"] = nData
+	}
+	R.Floor("C01-readonly-data", 3)
 	R.Floor("C01-field", 20)
 	R.Floor("C01-list", 5)
 	R.Floor("C01-assert", 25)
 	R.Floor("C01-kindmap", 9)
 	R.NotDecided = append(R.NotDecided, "that ldap.DecompileFilter renders the filter semantically (library)", "value equality of anything: only positions, accessors, order and completeness are decided")
 	R.Assumptions = append(R.Assumptions, "decodeControl is treated as an opaque per-element decoder here; its own field map is C14's", "ber.ReadPacket builds Children in wire order")
+}
+
+// isReparseIdiom recognises
+//
+//	children, err := ber.DecodePacketErr(p.Data.Bytes()); ...; p.Data.Truncate(0); ...; p.AppendChild(children)
+//
+// (decodeControl's way of turning an opaque control value into a tree): the
+// truncation is followed, in the same block, by appending the packet decoded
+// from the very bytes that were dropped.
+func isReparseIdiom(trunc ssa.CallInstruction, dataField *ssa.FieldAddr) bool {
+	if len(trunc.Common().Args) != 2 {
+		return false
+	}
+	if k, ok := an.IntConst(trunc.Common().Args[1]); !ok || k != 0 {
+		return false
+	}
+	pkt := an.Path(dataField.X)
+	b := trunc.Block()
+	after := false
+	for _, in := range b.Instrs {
+		if in == ssa.Instruction(trunc) {
+			after = true
+			continue
+		}
+		if !after {
+			continue
+		}
+		call, ok := in.(*ssa.Call)
+		if !ok || !an.CalleeIs(call.Common(), an.PkgBer, "(*Packet).AppendChild") {
+			continue
+		}
+		if an.Path(call.Common().Args[0]) != pkt {
+			continue
+		}
+		child := an.Strip(call.Common().Args[1])
+		if ex, ok := child.(*ssa.Extract); ok {
+			child = ex.Tuple
+		}
+		dec, ok := child.(*ssa.Call)
+		if !ok || !(an.CalleeIs(dec.Common(), an.PkgBer, "DecodePacketErr") || an.CalleeIs(dec.Common(), an.PkgBer, "DecodePacket")) {
+			continue
+		}
+		src, ok := an.Strip(dec.Common().Args[0]).(*ssa.Call)
+		if !ok || !an.CalleeIs(src.Common(), "bytes", "(*Buffer).Bytes") {
+			continue
+		}
+		if base, name, ok := an.LoadField(src.Common().Args[0]); ok && name == "Data" && an.Path(base) == pkt && dec.Block().Dominates(b) {
+			return true
+		}
+	}
+	return false
 }
 
 func k(r *interpResult) *ssa.Return {
